@@ -412,3 +412,14 @@ mod tests {
             .is_err());
     }
 }
+
+#[cfg(feature = "verif-hooks")]
+impl Quota {
+    /// Constructor for the verification harness (the fields are private).
+    pub fn verif_new(replenish_all_every: Duration, max_tokens: u64) -> Self {
+        Quota {
+            replenish_all_every,
+            max_tokens,
+        }
+    }
+}
